@@ -235,7 +235,15 @@ pub fn observe(ops: &[Op], resmap: &[u8], need: Need) -> Obs {
                     }
                     (d, m) => !d.reads().contains(&m) && !d.writes().contains(&m),
                 },
-                Op::Batch(b) => !b.ctrl.reads().contains(&missing) && !b.ctrl.writes().contains(&missing) && tolerates(&b.inner, missing, opt_seen),
+                Op::Batch(b) => {
+                    let ctrl_ok = if b.ctrl == CtrlData::OptReadA && missing == 0 {
+                        *opt_seen = true;
+                        true
+                    } else {
+                        !b.ctrl.reads().contains(&missing) && !b.ctrl.writes().contains(&missing)
+                    };
+                    ctrl_ok && tolerates(&b.inner, missing, opt_seen)
+                }
             })
         }
         if resmap == Ctx::identity_map().as_slice() {
